@@ -692,20 +692,24 @@ def _deviations(ctx, names):
 
 
 def run(ctx):
-    from cuqiverif import c06_seq
+    from cuqiverif import c06_seq, c06_mut, c06_proc
     seq_jobs = c06_seq.start_tlc(ctx)          # LinGaussSeq (pairs of configurations, one sampler object), in background threads
     hard_jobs = _start_hard_tlc(ctx)           # LinGauss part hard (ill-conditioned instances), in background threads
+    proc_jobs = c06_proc.start_tlc(ctx)        # LinGaussProc (process history) + every behaviour in its own fresh process, in background threads
+    mut_jobs = c06_mut.start_tlc(ctx)          # LinGaussMut (nested objects of ONE target updated through public setters), in background threads
     try:
-        _run(ctx, seq_jobs, hard_jobs)
+        _run(ctx, seq_jobs, hard_jobs, mut_jobs, proc_jobs)
     except BaseException:
         c06_seq.discard_tlc(seq_jobs)          # (no-op for runs already collected)
         _discard_hard_tlc(hard_jobs)
+        c06_mut.discard_tlc(mut_jobs)
+        c06_proc.discard_tlc(proc_jobs)
         raise
 
 
-def _run(ctx, seq_jobs, hard_jobs):
+def _run(ctx, seq_jobs, hard_jobs, mut_jobs, proc_jobs):
     from cuqiverif.core import MachineryError
-    from cuqiverif import tlc, c06_seq
+    from cuqiverif import tlc, c06_seq, c06_mut, c06_proc
     res = ctx.tlc("LinGauss", cfg="LinGauss.rto.%s.cfg" % ctx.tier, workers=16, timeout=1500)
     ctx.model_must_hold(res, "LinGauss.rto")
     rto_cases = res.cases
@@ -729,6 +733,8 @@ def _run(ctx, seq_jobs, hard_jobs):
         check_ugla(ctx, sorted(groups[key], key=lambda c: c["wv"]))
     ctx.traces = len(rto_cases) + len(groups)
     c06_seq.run(ctx, seq_jobs)                  # sequences on ONE sampler object (target switched, maxit / tol / beta / x0 reassigned)
+    c06_mut.run(ctx, mut_jobs)                  # ONE target object updated through the setters of its nested objects, then reinitialize() / new legacy sampler
+    c06_proc.run(ctx, proc_jobs)                # several posteriors of different configuration in ONE fresh process, every order / interleaving
     _run_hard(ctx, hard_jobs)                   # ill-conditioned instances: float CGLS needs more than n iterations (part hard)
     ntr = ctx.traces
     two = [c for c in rto_cases if c["nl"] == 2]
@@ -753,6 +759,12 @@ def replay(ctx, case):
     if case.get("kind") in ("rtoseq", "uglaseq"):
         from cuqiverif import c06_seq
         return c06_seq.replay(ctx, case)
+    if case.get("kind") in ("rtomut", "uglamut"):
+        from cuqiverif import c06_mut
+        return c06_mut.replay(ctx, case)
+    if case.get("kind") == "proc":
+        from cuqiverif import c06_proc
+        return c06_proc.replay(ctx, case)
     if case.get("kind") == "rto":
         return check_rto(ctx, case)
     if case.get("kind") == "hard":
